@@ -685,6 +685,8 @@ namespace {
         g.threads.push_back(std::move(t));
         return r;
     }
+    Thr* t_self_ptr() { return t_self; }
+
     Thr* find_by_handle(pthread_t h)
     {
         // newest first: the C library reuses pthread_t values of joined threads
@@ -768,6 +770,11 @@ void __wrap__ZNSt6thread4joinEv(std::thread* self)
     {
         IgnoreScope ig;
         target = sim::find_by_handle(self->native_handle());
+    }
+    if (target && target == sim::t_self_ptr()) {
+        // joining oneself: the C library refuses (EDEADLK) and std::thread::join throws, as outside the simulation
+        __real__ZNSt6thread4joinEv(self);
+        return;
     }
     if (target) {
         sim::point("thread.join", target);
